@@ -364,6 +364,10 @@ func (c *Constraint) matchesPermanodeTypes() []string {
 			}
 			return sb
 		case "or":
+			if len(sa) == 0 || len(sb) == 0 {
+				// One branch might match other things.
+				return nil
+			}
 			return append(sa, sb...)
 		}
 	}
